@@ -1,8 +1,25 @@
 package main
 
 import (
+	"bytes"
+	"runtime"
+	"strconv"
+	"sync"
+
 	dbm "github.com/tendermint/tm-db"
 )
+
+// curGID: id of the calling goroutine (from the stack header "goroutine N [").
+func curGID() int64 {
+	var buf [64]byte
+	n := runtime.Stack(buf[:], false)
+	f := bytes.Fields(buf[:n])
+	if len(f) < 2 {
+		return -1
+	}
+	id, _ := strconv.ParseInt(string(f[1]), 10, 64)
+	return id
+}
 
 // crashDB wraps a tm-db database and counts write events (Set / Delete / a batch Write).  With a budget armed, every
 // write event after the budget is dropped silently: the process "died" there, what reached the inner database before
@@ -11,11 +28,20 @@ type crashDB struct {
 	dbm.DB
 	events int
 	budget int // < 0: unlimited
+	// owner != 0: only writes of that goroutine count and pass; writes of other goroutines (the node's asynchronous
+	// clean-up of dropped databases) are discarded without counting, which keeps the event numbering deterministic
+	owner int64
+	mu    sync.Mutex
 }
 
 func newCrashDB(inner dbm.DB) *crashDB { return &crashDB{DB: inner, budget: -1} }
 
 func (c *crashDB) allow() bool {
+	c.mu.Lock()
+	defer c.mu.Unlock()
+	if c.owner != 0 && curGID() != c.owner {
+		return false
+	}
 	if c.budget >= 0 && c.events >= c.budget {
 		c.events++
 		return false
